@@ -26,6 +26,15 @@ func genCleanOp(t *rapid.T, compact, retention bool) clOp {
 	if compact {
 		op.Workers = rapid.SampledFrom([]int{1, 2, 4, 10}).Draw(t, "workers")
 	}
+	if op.AgeCut >= 0 && rapid.IntRange(0, 2).Draw(t, "during") == 0 {
+		// messages appended while the clean is running (may roll a segment)
+		op.Msgs = genBatch(t, compact, 4)
+		for j := range op.Msgs {
+			if op.Msgs[j].V > 2048 {
+				op.Msgs[j].V = 100
+			}
+		}
+	}
 	return op
 }
 
